@@ -418,6 +418,21 @@ fn absorb(st: &mut Stats, ctx: &Ctx, idx: usize, h: &History, trace: &Trace, vs:
                             st.index_states.insert(format!("{}|{}", h.label.split('(').next().unwrap_or("").trim(), winners_hash));
                             nontrivial = nontrivial || *queries > 0;
                         }
+                        Event::Threads { threads, yields, switches, inside_lookup, trace_hash, uncontrolled, skipped, .. } => {
+                            if let Some(why) = skipped {
+                                *st.probes.entry(format!("caller-threads-skipped: {why}")).or_default() += 1;
+                            } else {
+                                *st.probes.entry("caller-thread-histories".into()).or_default() += 1;
+                                *st.probes.entry("caller-thread-scheduling-points".into()).or_default() += *yields;
+                                *st.probes.entry("caller-thread-switches".into()).or_default() += *switches;
+                                *st.probes.entry("caller-thread-switches-inside-a-lookup-possible".into()).or_default() += *inside_lookup;
+                                *st.probes.entry(format!("caller-threads={threads}")).or_default() += 1;
+                                st.step_orders.insert(fnv1a(trace_hash.as_bytes()));
+                                if *uncontrolled {
+                                    *st.probes.entry("caller-threads-uncontrolled".into()).or_default() += 1;
+                                }
+                            }
+                        }
                         Event::Interleave { max_open, queries, .. } => {
                             st.max_open = st.max_open.max(*max_open);
                             if *max_open >= 2 {
@@ -631,6 +646,11 @@ fn histories_for(ctx: &Ctx, o: &Opts, prop: &str, quick: bool) -> Vec<History> {
             for i in 0..n(400, 20000) {
                 let seed = derive(o.seed, "C18", i as u64);
                 hs.push(gen::c18_random(ctx, &pool, &mut Rng::new(seed), seed));
+            }
+            // the same property with real caller threads whose interleaving the simulator decides
+            for i in 0..n(160, 8000) {
+                let seed = derive(o.seed, "C18-threads", i as u64);
+                hs.push(gen::c18_threads(ctx, &pool, &mut Rng::new(seed), seed));
             }
         }
         "C19" => {
